@@ -2,6 +2,9 @@ use std::net::SocketAddr;
 use std::sync::Arc;
 use std::time::Duration;
 use tokio::io;
+#[cfg(memcrs_verif)]
+use simseam::net::TcpStream;
+#[cfg(not(memcrs_verif))]
 use tokio::net::TcpStream;
 use tokio::sync::Semaphore;
 use tokio::time::timeout;
